@@ -49,7 +49,8 @@ def gen_scenario(rng, tier, prepop_kinds=()):
             if tree["single"]:
                 tree["files"][0][0] = tree["name"]
         enc = ["tool", rng.choice(TOOL_ROUTES[version])] if rng.random() < 0.5 else ["ref", "plain"]
-        torrents.append({"tree": tree, "version": version, "encoder": enc})
+        torrents.append({"tree": tree, "version": version, "encoder": enc,
+                         "edited": rng.choice(["lib", "cli"]) if enc[0] == "tool" and rng.random() < 0.3 else None})
     nsearch = rng.choice([1, 1, 2, 3])
     decoys = []
     if rng.random() < 0.6:
@@ -104,6 +105,17 @@ def build_world(case, scratch):
             if not oc.ok:
                 return {"error": "create failed: " + oc.excname() + oc.tb[-800:]}
             raw = oc.raw
+            if tor.get("edited"):
+                # pipeline: created, then edited (trackers / seeds / comment), then rebuilt from
+                from .meta_family import apply_edit
+                eo = apply_edit(mpath, {"route": tor["edited"], "req": {"announce": ["set", ["http://t.example/a"]],
+                                                                       "comment": ["set", "edited before rebuild"],
+                                                                       "url-list": ["set", ["http://w.example/x"]]}})
+                if not eo.ok:
+                    return {"error": "edit failed: " + eo.excname()}
+                with open(mpath, "rb") as fd:
+                    raw = fd.read()
+                world["edited_metafiles"] = world.get("edited_metafiles", 0) + 1
         else:
             if tree["single"]:
                 raw = rt.build(tree["name"], single=(tree["name"], content(tree["files"][0][2], tree["files"][0][1])),
@@ -379,6 +391,8 @@ class C13:
             counters["batch_cases"] = 1
         if case.get("search_as_file") and world.get("loose_file"):
             counters["search_path_is_a_file_cases"] = 1
+        if world.get("edited_metafiles"):
+            counters["edited_metafile_cases"] = 1
         sizes = [f[1] for t in case["torrents"] for f in t["tree"]["files"]]
         if any(s and s % pl == 0 for s in sizes):
             counters["boundary_cases"] = 1
